@@ -90,6 +90,30 @@ def check_tables(rep, facts, rule='R02.1'):
             rep.check(t == want_ty, rule, st, 'type:' + assoc, t, want_ty, None)
             sz = facts.derived.get(t, {}).get('Serializable::OutputSize', {}).get('usize')
             rep.check(sz == spec[key], rule, st, key, sz, '%s = %d' % (key, spec[key]), None)
+    # the buffers that receive key-schedule / KEM outputs have exactly the RFC lengths at type level
+    want = {
+        'aead::AeadKey': ('0', 'generic_array::GenericArray<u8, <<A as aead::Aead>::AeadImpl as aead::KeySizeUser>::KeySize>', 'Nk'),
+        'aead::AeadNonce': ('0', 'generic_array::GenericArray<u8, <<A as aead::Aead>::AeadImpl as aead::AeadCore>::NonceSize>', 'Nn'),
+        'aead::AeadTag': ('0', 'generic_array::GenericArray<u8, <<A as aead::Aead>::AeadImpl as aead::AeadCore>::TagSize>', 'Nt'),
+        'setup::ExporterSecret': ('0', 'generic_array::GenericArray<u8, <<K as kdf::Kdf>::HashImpl as digest::OutputSizeUser>::OutputSize>', 'Nh'),
+        'kem::SharedSecret': ('0', 'generic_array::GenericArray<u8, <Kem as kem::Kem>::NSecret>', 'Nsecret'),
+    }
+    for path, (fname, ty, what) in want.items():
+        adt = facts.adts.get(path)
+        if adt is None:
+            rep.anchor_lost(rule, path, 'buffer type', 'not found')
+            continue
+        fl = [f['ty'] for f in adt['variants'][0]['fields'] if f['name'] == fname]
+        got = fl[0] if fl else None
+        okt = got == ty or (got or '').replace('crypto_common::', 'aead::') == ty
+        rep.check(okt, rule, path, 'buffer-length:' + what, got, '%s bytes at type level: %s' % (what, ty), None)
+        n += 1
+    for im in facts.impls_of('kem::Kem'):
+        raw = im['types'].get('NSecret', {}).get('raw', '')
+        spec = rfc.KEMS.get(im['consts'].get('KEM_ID'))
+        if spec:
+            rep.check(im['types'].get('NSecret', {}).get('usize') == rfc.KDFS[spec['kdf']]['Nh'], rule, im['self_ty'], 'Nsecret-is-Nh-of-kem-kdf',
+                      raw[-80:], 'Nsecret = Nh of the KEM\'s KDF (RFC 9180 §4.1)', None)
     return n
 
 
